@@ -757,6 +757,10 @@ class Reader:
             yield Builtin("identity"), st
         elif name == "isinstance" and len(args) == 2:
             yield self.isinstance_(args[0], args[1]), st
+        elif name == "issubclass" and len(args) == 2 and isinstance(args[1], ClassSR) \
+                and isinstance(args[0], (ClassSR, ClassOf)):
+            # issubclass(type(x), SandboxResult): type(x) of a proxy is the proxy class, of a student value never
+            yield isinstance(args[0], ClassSR), st
         elif name == "hasattr" and len(args) == 2 and isinstance(args[1], str):
             yield self.hasattr_(args[0], args[1]), st
         elif name == "getattr" and len(args) in (2, 3) and isinstance(args[1], str):
